@@ -472,3 +472,39 @@ M.loop(P_CEP + '._consume_and_return_current_line', 0,
        invariant=lambda source, orig, lines, old, line_predicate_for_line_to_consume:
        _consumed_lines_inv(source, orig, lines, old, line_predicate_for_line_to_consume),
        modifies={'source': FORWARD, 'lines': MListOf(Str)})
+
+
+# ============================================================================== syntax of lines
+# Independent definitions (from the reference manual: "a phase header is a line whose first non-blank
+# character is [", comments start with #, blank = only space) -- no regular expressions here.  The functions of
+# section_document.syntax are proved to agree with them, given the assumed contract of re.Pattern.match
+# (pyvc/regex.py: the patterns are read from the compiled pattern objects of the module and transcribed).
+
+P_SYN = 'exactly_lib.section_document.syntax'
+BLANKS = ' \t'
+
+M.trust('re.Pattern.match on symbolic subjects: pyvc/regex.py -- match iff a prefix of the subject is in the '
+        'language of the pattern (transcribed from the compiled pattern object by Python\'s own regex parser; a '
+        'final $ also accepts a final newline); m.end() is the length of SOME matching prefix; \\w is transcribed '
+        'as [A-Za-z0-9_] (section names with non-ASCII letters are outside the model).')
+
+
+def is_header(line):
+    return line.lstrip(BLANKS).startswith('[')
+
+
+def is_comment(line):
+    return line.lstrip(BLANKS).startswith('#')
+
+
+def is_blank(line):
+    """only blanks (a final newline is tolerated: lines never have one)"""
+    return line.lstrip(BLANKS) == '' or line.lstrip(BLANKS) == NL
+
+
+M.contract(P_SYN + ':is_section_header_line', params=dict(line=Str), returns=Bool,
+           ensures={'first-non-blank-is-[': lambda line, result: iff(result, is_header(line))}, raises_only=())
+M.contract(P_SYN + ':is_comment_line', params=dict(line=Str), returns=Bool,
+           ensures={'first-non-blank-is-#': lambda line, result: iff(result, is_comment(line))}, raises_only=())
+M.contract(P_SYN + ':is_empty_line', params=dict(line=Str), returns=Bool,
+           ensures={'only-blanks': lambda line, result: iff(result, is_blank(line))}, raises_only=())
